@@ -515,6 +515,9 @@ def overlaps(rep, rng, tier):
     return out
 
 
+ME_LINES = []
+
+
 def run(tier, seed, replay):
     rep = core.Report(PID, tier, seed)
     rep.rule = ("dimension specs: random nested lists (flat, extra layer, superoperator pairs, 1-factors, malformed), pairs for "
@@ -638,6 +641,10 @@ def run(tier, seed, replay):
                     raised = False
                 except (TypeError, ValueError):
                     raised = True
+                if fmt == "dense":
+                    lket_ = nm_ in ("A.matrix_element(ket, ket)", "ket.overlap(ket)")
+                    ME_LINES.append(("C02.matrix_element " + json.dumps({"tidy": True, "A": dop, "l": [dl, [1] * len(dl)] if lket_ else [[1] * len(dl), dl], "r": [dr, [1] * len(dr)], "lket": lket_, "rket": True}),
+                                     "overlap" if "overlap" in nm_ else "matrix_element", not raised, nm_))
                 if composes and raised:
                     rep.violation(core.Violation(f"C02:matrix-element-refused:{nm_}", f"{nm_} with labels {kl.dims}, {Aq.dims}, {kr.dims} ({fmt}) is refused although the product it stands for is defined", {"dims": [dl, dop, dr]}))
                 elif not composes and not raised:
@@ -646,6 +653,15 @@ def run(tier, seed, replay):
                     rep.violation(core.Violation(f"C02:matrix-element-value:{nm_}", f"{nm_} gives {got_}, NumPy gives {want_val}", {"dims": [dl, dop, dr]}))
     model = core.run_driver(lines)
     ndis, first = 0, None
+    # acceptance of matrix elements / overlaps by the real objects against Qv.C02.matrixElementOk / overlapOk
+    me_model = core.run_driver([x[0] for x in ME_LINES])
+    for (line_, key_, accepted_, nm_), m_ in zip(ME_LINES, me_model):
+        rep.count("matrix-element-correspondence")
+        if not isinstance(m_, dict) or m_.get(key_) != accepted_:
+            ndis += 1
+            if first is None:
+                first = {"line": line_, "call": nm_, "model": m_, "impl_accepts": accepted_}
+    del ME_LINES[:]
     for (s, r), m in zip(specs, model[:len(specs)]):
         out = real_dims(s, r)
         realj = out if isinstance(out, dict) else out[0]
